@@ -15,6 +15,8 @@
   runContChecks / contChecksPassing / BlockEnd / PlanPostChecks / End ↔ Model/Cont: producer closes the
     channel on exit (defer), one send per tick, stops after the first failing run; consumers poll without
     blocking (select/default) and the owners drain until close after cancelling (fixes 20268dd, f8bdf7c).
+  BlockPreChecks / PlanPreChecks ↔ Model/Regate (which gate runs on entry, fresh or recovered) and
+    Model/Engine.blkPreOk / planPreOk (pre + first cont run gate the scope).
   execSeq ↔ Model/Engine.runSeqActs: actions in order, stop at the first error, status written before
     the first action and on exit.
   exec / Execute (actions.go) ↔ Model/Attempts: attempt appended in a defer, timeout → retryable error,
@@ -556,6 +558,62 @@ def runPlan : List String := [
   "}",
   "call e.runner",
   "}"
+]
+
+/-- expected skeleton of BlockPreChecks in internal/execute/sm/sm.go -/
+def blockPreChecks : List String := [
+  "defer {",
+  "func {",
+  "call store.UpdateBlock",
+  "if err != nil {",
+  "}",
+  "}",
+  "}",
+  "if h.block.PreChecks == nil || h.block.PreChecks.State.Status == workflow.Completed {",
+  "if h.block.PreChecks != nil && h.block.ContChecks != nil && h.block.ContChecks.State.Status != workflow.Completed {",
+  "call s.runChecksOnce",
+  "if err != nil {",
+  "set h.block.State.Status = workflow.Failed",
+  "set req.Data.err = err",
+  "set req.Next = s.BlockDeferredChecks",
+  "return",
+  "}",
+  "}",
+  "set req.Next = s.BlockStartContChecks",
+  "return",
+  "}",
+  "call s.runPreChecks",
+  "if err != nil {",
+  "set h.block.State.Status = workflow.Failed",
+  "set req.Data.err = err",
+  "set req.Next = s.BlockDeferredChecks",
+  "return",
+  "}",
+  "set req.Next = s.BlockStartContChecks",
+  "return"
+]
+
+/-- expected skeleton of PlanPreChecks in internal/execute/sm/sm.go -/
+def planPreChecks : List String := [
+  "defer {",
+  "func {",
+  "call store.UpdatePlan",
+  "if err != nil {",
+  "}",
+  "}",
+  "}",
+  "if skipRecoveredChecks(req.Data.Plan.PreChecks) {",
+  "set req.Next = s.PlanStartContChecks",
+  "return",
+  "}",
+  "call s.runPreChecks",
+  "if err != nil {",
+  "set req.Data.err = err",
+  "set req.Next = s.PlanDeferredChecks",
+  "return",
+  "}",
+  "set req.Next = s.PlanStartContChecks",
+  "return"
 ]
 
 end Coercion.Skeletons
